@@ -512,7 +512,11 @@ struct Harness
                     const auto got = std::as_const(sl.v()).template get_fixed_size<fixed_index(I)>();
                     if (got != sl.m.fixed[fixed_index(I)])
                     {
-                        report(rc.op_domain | pm(C04), "fixed-size-mismatch",
+                        // swap / move construction exchange ownership of the stored objects (C16): with foreign fixed
+                        // sizes they are looked up at other addresses
+                        report(rc.op_domain | pm(C04) |
+                                   ((rc.op_kind == OP_SWAP || rc.op_kind == OP_MOVE_CONSTRUCT) ? pm(C16) : 0u),
+                               "fixed-size-mismatch",
                                "slot" + std::to_string(s) + " get_fixed_size<" + std::to_string(fixed_index(I)) + ">");
                     }
                 }
